@@ -444,6 +444,59 @@ func runEngine(query string, doc *gedcom.Document) (interface{}, error) {
 type queryCase struct {
 	Doc     *gen.GraphBP `json:"doc"`
 	Program program      `json:"program"`
+	// Edits: the document is queried once, then edited through the public API, then queried
+	// again; the result must be that of the same text decoded from nothing
+	Edits []docEdit `json:"edits,omitempty"`
+}
+
+type docEdit struct {
+	Kind string `json:"kind"` // marry | add-child | add-name | add-birth | delete-person | drop-role-line
+	A    int    `json:"a"`
+	B    int    `json:"b"`
+}
+
+func applyDocEdit(doc *gedcom.Document, e docEdit, k int) (ok bool) {
+	defer func() {
+		if recover() != nil {
+			ok = false
+		}
+	}()
+	inds, fams := doc.Individuals(), doc.Families()
+	if len(inds) == 0 {
+		return false
+	}
+	x, y := inds[e.A%len(inds)], inds[e.B%len(inds)]
+	switch e.Kind {
+	case "marry":
+		doc.AddFamilyWithHusbandAndWife(fmt.Sprintf("FQ%d", k), x, y)
+	case "add-child":
+		if len(fams) == 0 {
+			return false
+		}
+		fams[e.B%len(fams)].AddChild(x)
+	case "add-name":
+		x.AddName(fmt.Sprintf("Later%d /Added/", e.B))
+	case "add-birth":
+		x.AddBirthDate(fmt.Sprintf("%d", 1801+e.B%90))
+	case "delete-person":
+		doc.DeleteNode(x)
+	case "drop-role-line":
+		if len(fams) == 0 {
+			return false
+		}
+		f := fams[e.B%len(fams)]
+		for _, n := range f.Nodes() {
+			switch n.Tag().Tag() {
+			case "HUSB", "WIFE", "CHIL":
+				f.DeleteNode(n)
+				return true
+			}
+		}
+		return false
+	default:
+		return false
+	}
+	return true
 }
 
 func emptyAsNil(v interface{}) interface{} {
@@ -540,6 +593,33 @@ func check(c queryCase) (fl *harness.Failure, nontrivial bool) {
 		gotP, _, _ := normalise(rp)
 		if errp != nil || !sameJSON(gotP, wantP) {
 			return harness.Failf("query-changes-document", "after evaluating %q on a document, %q gives %v on it and %v on a fresh copy (%v)", query, probe, gotP, wantP, errp), false
+		}
+	}
+	// a document with a history is a document like any other: queried, edited through the
+	// public API, queried again - the result is that of the same text decoded from nothing
+	if len(c.Edits) > 0 {
+		live := c.Doc.Doc()
+		_, _ = runEngine(query, live)
+		for _, probe := range []string{".Individuals | .Families | .Pointer", ".Families | .Husband | .String", ".Individuals | .Name | .String"} {
+			_, _ = runEngine(probe, live)
+		}
+		applied := 0
+		for k, e := range c.Edits {
+			if applyDocEdit(live, e, k) {
+				applied++
+			}
+		}
+		if applied > 0 {
+			fresh, derr := gedcom.NewDocumentFromString(live.String())
+			if derr == nil {
+				a, errA := runEngine(query, live)
+				b, errB := runEngine(query, fresh)
+				_, sa, _ := normalise(a)
+				_, sb, _ := normalise(b)
+				if (errA == nil) != (errB == nil) || (errA == nil && sa != sb) {
+					return harness.Failf("edited-document-result-differs", "query %q after %v through the public API gives %s (%v); on the same text decoded from nothing it gives %s (%v)\ntext now:\n%s", query, c.Edits, trunc(sa), errA, trunc(sb), errB, live.String()), false
+				}
+			}
 		}
 	}
 	// metamorphic relations
@@ -869,11 +949,17 @@ func reflectSame(a, b pipe) bool { return a.String() == b.String() }
 
 func TestCheckQueries(t *testing.T) {
 	s := harness.NewSub("typed-programs-vs-reference",
-		"well-typed programs from the documented grammar (0..2 variable definitions, main pipeline of up to 6 stages: accessor chains over Document/Individual/Family/Husband/Wife/Child/Name/Date/Date value/Sex/plain nodes - nil-unsafe accessors are never applied to nullable values -, First/Last with arguments 0..7, Length, Only with a comparison, NodesWithTagPath, objects, Combine, all six operators over accessor and constant operands incl. '10' vs '9', '1.230', ' JOHN ') on random family graphs; engine result vs reference interpreter as normalised JSON, determinism, and metamorphic relations (variable inlining, Length, Combine(E,E), First/Last length and partition for k in {0,1,n-1,n,n+1}); non-trivial = non-empty list or object result and a main pipeline of >= 3 stages")
+		"well-typed programs from the documented grammar (0..2 variable definitions, main pipeline of up to 6 stages: accessor chains over Document/Individual/Family/Husband/Wife/Child/Name/Date/Date value/Sex/plain nodes - nil-unsafe accessors are never applied to nullable values -, First/Last with arguments 0..7, Length, Only with a comparison, NodesWithTagPath, objects, Combine, all six operators over accessor and constant operands incl. '10' vs '9', '1.230', ' JOHN ') on random family graphs; engine result vs reference interpreter as normalised JSON, determinism, a quarter of the cases again after 1..2 edits of the queried document through the public API (vs the same text decoded from nothing), and metamorphic relations (variable inlining, Length, Combine(E,E), First/Last length and partition for k in {0,1,n-1,n,n+1}); non-trivial = non-empty list or object result and a main pipeline of >= 3 stages")
 	s.Rapid(t, harness.Share(harness.Pick(60000, 1200000)), 160, func(rt *rapid.T) {
 		c := queryCase{
 			Doc:     gen.Graph(gen.GraphOpts{MaxPeople: 6, MaxFamilies: 3, WildDates: true, UIDs: true}).Draw(rt, "doc"),
 			Program: genProgram(rt),
+		}
+		if rapid.IntRange(0, 3).Draw(rt, "edited") == 2 {
+			for k := rapid.IntRange(1, 2).Draw(rt, "nedits"); k > 0; k-- {
+				c.Edits = append(c.Edits, docEdit{Kind: rapid.SampledFrom([]string{"marry", "add-child", "add-name", "add-birth", "delete-person", "drop-role-line"}).Draw(rt, "editKind"),
+					A: rapid.IntRange(0, 9).Draw(rt, "editA"), B: rapid.IntRange(0, 9).Draw(rt, "editB")})
+			}
 		}
 		fl, nt := check(c)
 		cls := []string{"last:" + lastKind(c.Program)}
